@@ -121,7 +121,7 @@ def gen_model(rng, kind):
     elif kind == "nojoint":
         toks += ["U", "2"]
     act_j = [j for j in joints if j[2] in "bsh"]
-    nact = 0 if kind in ("minimal", "nojoint") or not act_j else rng.randint(1 if kind == "full" else 0, 4)
+    nact = 0 if kind in ("minimal", "nojoint") or not act_j else rng.randint(2 if kind == "full" else 0, 4)
     for a in range(nact):
         b, k, _ = rng.choice(act_j)
         dyn = rng.choice("niffe") if a or kind != "full" else "i"
